@@ -508,6 +508,27 @@ theorem activeSuicide_finishes (c : Cfg) (fs : FileSet) (hd : ¬ Del fs) (h : Sh
       simp [activeSuicideOps, run, applyOps, step, FileSet.set, served, startup, removeFractionFiles, classify,
         classifyInfo, makeInfo, Info.known, Content.has]
 
+/-- the operations of a cancelled start-up are a prefix of those of a complete one (so `Reach.crash .startup` covers it) -/
+theorem cancelledStartOps_prefix (o : Bool) (fs : FileSet) : cancelledStartOps o fs <+: startupOps o fs := by
+  unfold cancelledStartOps startupOps
+  cases classify fs <;> first | exact List.prefix_refl _ | exact List.prefix_append _ _
+
+theorem classifyInfo_active_meta (i : Info) (h : classifyInfo i = .active) : i.hasMeta = true := by
+  obtain ⟨a, b, c, d, e, f, g⟩ := i
+  revert h
+  cases a <;> cases b <;> cases c <;> cases d <;> cases e <;> cases f <;> cases g <;> simp [classifyInfo, Info.known]
+
+/-- a cancelled start-up leaves the files of an unsealed fraction exactly as they were -/
+theorem cancelledStart_unchanged (o : Bool) (fs : FileSet) (h : classify fs = .active) (hd : fs.docs ≠ .absent) :
+    run (cancelledStartOps o fs) fs = fs := by
+  have hm : fs.metaF ≠ .absent := by
+    have := classifyInfo_active_meta (makeInfo fs) h
+    intro hm
+    simp [makeInfo, Content.has, hm] at this
+  obtain ⟨docs, docsDel, sdocs, sdocsTmp, sdocsDel, index, indexTmp, indexDel, metaF⟩ := fs
+  simp only [ne_eq] at hd hm
+  simp [cancelledStartOps, h, newActiveOps, run, applyOps, step, FileSet.get, hd, hm]
+
 theorem shrink_spec (limit : Nat) (sizes : List Nat) :
     (shrink limit sizes).1 ++ (shrink limit sizes).2 = sizes ∧
       ((shrink limit sizes).2.sum ≤ limit) ∧
